@@ -186,6 +186,9 @@ static ezc3d::DataNS::Frame buildFrame(const Shape &s, long long dev, uint64_t v
     if (dev == 12 && nSub > 0 && nC > 0) note = "unnamed-channels";
     ezc3d::DataNS::Frame f;
     f.add(pts, an);
+    // make sure the caller's frame really carries the residuals (set through the documented non-const accessor)
+    Rng rr(vseed ^ 0x5151u);
+    for (size_t i = 0; i < f.points().nbPoints(); ++i) f.points_nonConst().point_nonConst(i).residual(bitsToFloat(genFloatBits(rr)));
     return f;
 }
 
@@ -211,6 +214,7 @@ void Interp::run(const Case &c) {
             fprintf(stderr, "  -> %s%s %s | %s\n", out.skipped ? "skipped" : (out.threw ? "threw " : "ok"), out.cls.c_str(), out.what.substr(0, 90).c_str(), out.note.c_str());
         }
         if (L) L->after(*this, op, i, out);
+        if (out.undocumented) { halted = true; break; }
         if (L && L->stop) break;
     }
 }
@@ -242,9 +246,17 @@ Outcome Interp::exec(const Op &op) {
             if (isP) obj->point(out.note.substr(0, out.note.find('|'))); else obj->analog(out.note.substr(0, out.note.find('|')));
         }
         else if (k == "prate") {
+            const float nr = op.arg(0) == -1 ? 0.f : rateOf(op.arg(0));
+            {   // the analog rate must stay an integer multiple (>=1) of the point rate: anything else is inconsistent content
+                Shape s = shapeOf(*obj);
+                if (s.arate != 0.f && nr != 0.f) {
+                    float q = s.arate / nr;
+                    if (!(q >= 1.f) || q != static_cast<float>(static_cast<long long>(q))) { out.skipped = true; out.note = "rates would be inconsistent: not called"; return out; }
+                }
+            }
             out.mutating = true;
             ezc3d::ParametersNS::GroupNS::Parameter p("RATE");
-            p.set(std::vector<float>() = {op.arg(0) == -1 ? 0.f : rateOf(op.arg(0))});
+            p.set(std::vector<float>() = {nr});
             obj->parameter("POINT", p);
         }
         else if (k == "arate") {
@@ -277,12 +289,14 @@ Outcome Interp::exec(const Op &op) {
         else if (k == "fbuild") {
             size_t slot = static_cast<size_t>((op.arg(0) < 0 ? -op.arg(0) : op.arg(0)) % 4);
             slots[slot] = buildFrame(shapeOf(*obj), op.arg(1), static_cast<uint64_t>(op.arg(2)), out.note);
+            slotDev[slot] = out.note;
         }
         else if (k == "fmut") {
             size_t slot = static_cast<size_t>((op.arg(0) < 0 ? -op.arg(0) : op.arg(0)) % 4);
             long long how = (op.arg(1) < 0 ? -op.arg(1) : op.arg(1)) % 5;
             Rng r(static_cast<uint64_t>(op.arg(2)));
             ezc3d::DataNS::Frame &f = slots[slot];
+            if (how == 1 || how == 3 || how == 4) slotDev[slot] += "|mut:shape";
             if (how == 0) { auto &P = f.points_nonConst(); for (size_t i = 0; i < P.nbPoints(); ++i) fillPoint(P.point_nonConst(i), r); out.note = "points-values"; }
             else if (how == 1) { ezc3d::DataNS::Points3dNS::Point pt; pt.name("caller_added"); fillPoint(pt, r); f.points_nonConst().point(pt); out.note = "points-add"; }
             else if (how == 2) {
@@ -301,8 +315,8 @@ Outcome Interp::exec(const Op &op) {
             size_t n = obj->data().nbFrames();
             {
                 Shape s = shapeOf(*obj);
-                if (s.nP == 0 && (s.nC == 0 || s.nSub == 0) && !allowUndeclaredFrames) {
-                    out.skipped = true; out.note = "nothing declared: adding frames is undocumented, not called"; return out;
+                if (((s.nP == 0 && s.nC == 0) || (s.nC > 0 && s.nSub == 0)) && !allowUndeclaredFrames) {
+                    out.skipped = true; out.note = "nothing declared (or channels declared without a usable ANALOG:RATE): adding frames is undocumented, not called"; return out;
                 }
             }
             if (mode == 2 && n == 0 && k == "fsub" && openFindings.count("KF-D20")) {
@@ -312,6 +326,16 @@ Outcome Interp::exec(const Op &op) {
             if (mode == 0 || (mode == 1 && n == 0)) { out.note = "append"; obj->frame(slots[slot]); }
             else if (mode == 1) { size_t idx = static_cast<size_t>(kk) % n; out.note = "replace " + std::to_string(idx); obj->frame(slots[slot], idx); }
             else { size_t idx = n + static_cast<size_t>(kk % 6); out.note = "extend " + std::to_string(idx); obj->frame(slots[slot], idx); }
+            // accepted although it deviates from the declared shape: the documentation does not promise this refusal; history ends
+            if (slotDev[slot] != "match" && slotDev[slot] != "unnamed-channels" && !slotDev[slot].empty()) {
+                if (slotDev[slot].find("mut:") == std::string::npos || slotDev[slot].rfind("match", 0) != 0 || true) {
+                    Shape s2 = shapeOf(*obj);
+                    const auto &fr = slots[slot];
+                    bool shapeOk = fr.points().nbPoints() == s2.nP && fr.analogs().nbSubframes() == (s2.nC ? s2.nSub : 0);
+                    for (size_t q2 = 0; shapeOk && q2 < fr.analogs().nbSubframes(); ++q2) if (fr.analogs().subframe(q2).nbChannels() != s2.nC) shapeOk = false;
+                    if (slotDev[slot].find("mut:") == std::string::npos || !shapeOk) out.undocumented = true;
+                }
+            }
         }
         else if (k == "pcol" || k == "acol") {
             // pcol <nameBase> <ncols> <dev> <vseed> ; dev: 0 none,1 empty vector,2 frames-1,3 frames+1,4 first frame empty,
@@ -348,6 +372,7 @@ Outcome Interp::exec(const Op &op) {
                         ezc3d::DataNS::Points3dNS::Points pts;
                         for (size_t j = 0; j < cols; ++j) { ezc3d::DataNS::Points3dNS::Point pt; pt.name(names[j]); fillPoint(pt, r); pts.point(pt); }
                         fr.add(pts);
+                        for (size_t j = 0; j < fr.points().nbPoints(); ++j) fr.points_nonConst().point_nonConst(j).residual(bitsToFloat(genFloatBits(r)));
                     } else {
                         ezc3d::DataNS::AnalogsNS::Analogs an;
                         for (size_t sfi = 0; sfi < nSub; ++sfi) {
